@@ -24,7 +24,7 @@
 /*! \f$ \ln{2} \f$ */
 #define A_LN2 0.693147180559945309417
 /*! \f$ \frac{1}{\ln{2}} \f$ */
-#define A_LN1_2 3.32192809488736218171
+#define A_LN1_2 1.44269504088896340736
 /*! \f$ \ln{10} \f$ */
 #define A_LN10 2.30258509299404568402
 /*! \f$ \frac{1}{\ln{10}} \f$ */
